@@ -23,15 +23,13 @@ def commaI (xs : List Int) : String := ",".intercalate (xs.map toString)
 def nodeDump (s : NodeIds) : String :=
   s!"{s.n} {s.max} {s.blank} {s.nUnused} {s.maxUnused} {s.oldN} {s.newN} | {joinI s.global} | " ++
   s!"{joinI s.keys} | {joinN (s.sorted.map (·.2))} | {joinI s.unusedStk.reverse} | " ++
-  joinI ((List.range s.max).filterMap fun v => if s.liveAt v then some (s.part.getD v 0) else none)
+  joinI (((s.global.zip s.part).filter fun gp => decide (gp.1 ≥ 0)).map (·.2))
 
 def cellDump (s : CellStore) : String :=
-  let rows := (List.range s.max).map fun c =>
-    let r := s.row c
+  let rows := s.c2n.map fun r =>
     if r.getD 0 (-1) = -1 then commaI (r.take 2) else commaI r
-  let adj := (List.range s.adj.nnode).filterMap fun v =>
-    let l := s.adj.lists.getD v []
-    if l.isEmpty then none else some s!"{v}:{commaI l}"
+  let adj := s.adj.lists.zipIdx.filterMap fun lv =>
+    if lv.1.isEmpty then none else some s!"{lv.2}:{commaI lv.1}"
   s!"{s.n} {s.max} {s.blank} {s.adj.nnode} | {" ".intercalate rows} | {" ".intercalate adj}"
 
 def stName (s : Status) : String := s.name
@@ -47,8 +45,8 @@ def packOp (st : St) (c : Status × List Int × List Int) : St × String :=
 
 /-- all nodes of all valid cells lie in `[0,k)` -/
 def cellNodesBelow (s : CellStore) (k : Int) : Bool :=
-  (List.range s.max).all fun c =>
-    s.c2nAt 0 c == -1 || ((s.row c).take s.nodePer).all fun v => decide (0 ≤ v) && decide (v < k)
+  s.c2n.all fun r =>
+    r.getD 0 (-1) == -1 || (r.take s.nodePer).all fun v => decide (0 ≤ v) && decide (v < k)
 
 /-- harness guard: larger cell node ids would make `ref_adj` allocate GBs -/
 def nodeLimit : Int := 100000
@@ -134,9 +132,12 @@ def step (st : St) (line : String) : St × String :=
   | ["creplace_node", o, n] => match o.toInt?, n.toInt? with
       | some o, some n =>
         if n > nodeLimit then (st, "bad-op") else
+        -- harness guard (see h_nodecell.c): a cell registered around `o` that does not contain `o`
+        if o ≠ n ∧ (st.cell.adj.first o).any (fun cell =>
+            !((st.cell.row cell.toNat).take st.cell.nodePer).contains o) then (st, "hang") else
         match st.cell.replaceNode o n with
         | some r => ({ st with cell := r.2 }, stName r.1)
-        | none => (st, "hang")
+        | none => (st, "hang-unexpected")
       | _, _ => (st, "bad-op")
   | "cwith" :: ns => match parseInts? ns with
       | some ns =>
